@@ -130,6 +130,8 @@ def project(snap):
 def diff(observed, demanded, slack=(0,), path=""):
     """fields of the observed snapshot that differ from the demanded one: [{path, observed, demanded}]"""
     out = []
+    if demanded == [] and isinstance(observed, dict):
+        demanded = {}       # ToJson prints a function with an empty domain as an empty array
     if isinstance(demanded, dict) and isinstance(observed, dict):
         for k in sorted(set(demanded) | set(observed)):
             p = path + "." + k if path else k
@@ -383,6 +385,9 @@ def confirm(ctx, rejected, needs, limit=4):
         acc, info = single(ctx, sc, "slow_" + re.sub(r"\W", "_", sc["id"]), slow=True, deviation=list(by_dev))
         if acc:
             ctx.cov["timing_unconfirmed"] = ctx.cov.get("timing_unconfirmed", 0) + 1
+            ctx.cov.setdefault("timing_unconfirmed_samples", []).append(
+                {"scenario": sc["id"], "line": r["line"], "fields": (r.get("diff") or [])[:6], "why": r.get("why"),
+                 "event": None if r.get("diff") else (r.get("event") or "")[:300]})
             continue
         r2 = {"scenario": sc, "trace": info["trace"], "line": info["line"], "event": info.get("event"), "why": info.get("why"),
               "diff": info.get("diff")}
